@@ -14,8 +14,10 @@ from ..sym import NotEncodable
 PID = "C12"
 
 
-def mk(kind, p=0.3):
+def mk(kind, p=0.3, erasure_symbol=None):
     from kaira.channels import BinarySymmetricChannel, BinaryErasureChannel, BinaryZChannel
+    if kind == "bec" and erasure_symbol is not None:
+        return BinaryErasureChannel(p, erasure_symbol=erasure_symbol)
     return {"bsc": BinarySymmetricChannel, "bec": BinaryErasureChannel, "z": BinaryZChannel}[kind](p)
 
 
@@ -31,7 +33,9 @@ def run_item(item, tl, mutate=None):
 
     def rec(clause, status, **kw):
         obs.append(ob(clause, config, status, **kw, **tl.take()))
-    ch = mk(kind, 0.3 if pmode == "sym" else pmode)
+    ES = item.get("erasure_symbol")
+    ESV = -1 if ES is None else ES
+    ch = mk(kind, 0.3 if pmode == "sym" else pmode, ES)
     if mutate:
         mutate(ch)
     dtype = getattr(torch, dt)
@@ -102,7 +106,7 @@ def run_item(item, tl, mutate=None):
                 exp = S.sub(S.mul(2, expb), 1) if alpha == "bipolar" else expb
             elif kind == "bec":
                 xv = S.sub(S.mul(2, xb), 1) if alpha == "bipolar" else xb
-                exp = S.where(S.mkbx(hit), -1, xv)
+                exp = S.where(S.mkbx(hit), ESV, xv)
             else:
                 if kind == "z" and pmode != "sym" and float(pmode) == 0.0:
                     hit = z3.BoolVal(False)
@@ -110,7 +114,7 @@ def run_item(item, tl, mutate=None):
                 exp = S.sub(S.mul(2, expb), 1) if alpha == "bipolar" else expb
             viol_terms.append(S.zbool(S.ne(y[i], exp)))
             allowed = [(-1, 1) if alpha == "bipolar" else (0, 1)][0]
-            inalpha = z3.Or([S.zbool(S.eq(y[i], a)) for a in allowed] + ([S.zbool(S.eq(y[i], -1))] if kind == "bec" else []))
+            inalpha = z3.Or([S.zbool(S.eq(y[i], a)) for a in allowed] + ([S.zbool(S.eq(y[i], ESV))] if kind == "bec" else []))
             alph_terms.append(z3.Not(inalpha))
         st, model = decide(ctx, zor(viol_terms))
         note("transition law (per position, own draw only)", st, lambda: _viol(item, witness(model), "output differs from the transition law"))
@@ -130,7 +134,7 @@ def real_run(item, w):
     """replay on the real channel with torch.rand_like stubbed to return the witness draws"""
     kind, alpha, n, dt = item["kind"], item["alphabet"], item["n"], item["dtype"]
     with _disable_current_modes():
-        ch = mk(kind, float(w["p"]))
+        ch = mk(kind, float(w["p"]), item.get("erasure_symbol"))
         b = torch.tensor(w["b"]).to(getattr(torch, dt)).reshape(tuple(item.get("shape") or (n,)))
         x = 2 * b - 1 if alpha == "bipolar" else b
         x0 = x.clone()
@@ -171,7 +175,7 @@ def _viol(item, w, what, clause="law"):
                 e = xb ^ int(hit)
                 e = 2 * e - 1 if alpha == "bipolar" else e
             elif kind == "bec":
-                e = -1 if hit else (2 * xb - 1 if alpha == "bipolar" else xb)
+                e = (-1 if item.get("erasure_symbol") is None else item["erasure_symbol"]) if hit else (2 * xb - 1 if alpha == "bipolar" else xb)
             else:
                 e = xb & (0 if hit else 1)
                 e = 2 * e - 1 if alpha == "bipolar" else e
@@ -224,6 +228,11 @@ def all_items():
                     it = dict(kind=kind, alphabet=alpha, n=4, dtype="float32", p=p, shape=list(shape))
                     it["config"] = f"{kind} alphabet={alpha} shape={shape} dtype=float32 p={p}"
                     items.append(it)
+    # custom (finite) erasure symbols, also on the bipolar alphabet where the default -1 would collide
+    for es, alpha, dt in ((2.0, "binary", "float32"), (0.5, "binary", "float32"), (0.5, "binary", "int64"), (0.0, "bipolar", "float32"), (2.0, "bipolar", "float32")):
+        it = dict(kind="bec", alphabet=alpha, n=4, dtype=dt, p="sym", erasure_symbol=es)
+        it["config"] = f"bec alphabet={alpha} n=4 dtype={dt} p=sym erasure_symbol={es}"
+        items.append(it)
     items.append(dict(selftest=True, config="selftest"))
     return items
 
@@ -246,7 +255,7 @@ def main():
     ck.bound("inputs", f"n = {tier(4, 10)} symbols (Z channel: <= 5, one path per input pattern), both alphabets, float32, int64, bool and uint8 inputs; p symbolic in [0,1] plus the constants 0 and 1; uniform draws symbolic in [0,1)")
     ck.stub("torch.rand_like -> fresh symbolic reals in [0,1), logged in generation order (the generator itself is trusted to be i.i.d. uniform)")
     ck.assume("'independently with probability p' is decided as: output position i is a function of x_i and of its own draw only, hit exactly when u < p; the empirical rate of >= 10^6 real draws is a statement about torch's RNG (outside the claim)")
-    ck.assume("bipolar inputs contain at least one -1 (documented recognition rule); BEC with bipolar input is excluded because the default erasure symbol is -1")
+    ck.assume("bipolar inputs contain at least one -1 (documented recognition rule); BEC with bipolar input and the default erasure symbol -1 is excluded (collision); custom erasure symbols are finite (NaN / inf markers are outside the claim: the reals model has no such values)")
     ck.run_items(__name__, "work", items)
     ck.finish(min_obligations=20)
 
